@@ -142,6 +142,40 @@ theorem parse_ofs_pos {inflate : Inflate} {off : Nat} {inp rest : Bytes} {o k : 
         · cases h
         · simp at h
 
+/-- … and so for every entry of every parsed pack. -/
+theorem parsed_entries_ofs_pos {inflate : Inflate} (total : Nat) :
+    ∀ (fuel count : Nat) (inp rest : Bytes) (es : List Entry),
+      parseEntries inflate total fuel count inp = .ok (es, rest) →
+      ∀ e ∈ es, ∀ k d, e.kind = .ofs k d → 1 ≤ k := by
+  intro fuel
+  induction fuel with
+  | zero =>
+    intro count inp rest es h
+    cases count with
+    | zero => simp only [parseEntries, Except.ok.injEq, Prod.mk.injEq] at h; obtain ⟨rfl, _⟩ := h; simp
+    | succ c => simp [parseEntries] at h
+  | succ fuel ih =>
+    intro count inp rest es h
+    cases count with
+    | zero => simp only [parseEntries, Except.ok.injEq, Prod.mk.injEq] at h; obtain ⟨rfl, _⟩ := h; simp
+    | succ c =>
+      simp only [parseEntries] at h
+      split at h
+      · cases h
+      · rename_i e r he
+        split at h
+        · cases h
+        · rename_i es' r' hrec
+          simp only [Except.ok.injEq, Prod.mk.injEq] at h
+          obtain ⟨rfl, _⟩ := h
+          intro e' he' k d hk
+          rcases List.mem_cons.mp he' with rfl | hm
+          · obtain ⟨eo, ek⟩ := e'
+            simp only at hk
+            subst hk
+            exact parse_ofs_pos he
+          · exact ih c r r' es' hrec e' hm k d hk
+
 /-- The object loop is a total function of the input: with `fuel > inp.length` it never runs out of fuel —
 the number of iterations is bounded by the length of the remaining input, NOT by the (attacker-chosen,
 up to 2^32-1) object count. -/
@@ -1093,6 +1127,12 @@ theorem fs_visible_only_when_complete :
     allPrograms.all (fun prog => (allPrefixes prog).all fun pre =>
       let fs := runOps {} pre
       !fs.visible || fs.packComplete) = true := by decide
+
+/-- A successful ingest becomes visible by exactly one step — the rename of the index lock file (step 5). -/
+theorem fs_success_atomic :
+    [diskProgram .thin .never, diskProgram .addPack .never].all (fun prog =>
+      (List.range 5).all (fun n => !(runOps {} (prog.take n)).visible) && (runOps {} (prog.take 5)).visible &&
+      (runOps {} prog).visible && prog.length == 5) = true := by decide
 
 /-- **Failed ingests end invisible** when the failure is detected before `_complete_pack` or by a validation
 error raised outside zlib, and an aborted `add_pack` leaves nothing at all. -/
